@@ -13,6 +13,7 @@ RULE = ("all 27 table entries; per gate: matrix computable symbolically and nume
         "dagger and the additive group law on a tensor grid with 2*deg(residual)+1 points per parameter - which decides the identity for ALL real "
         "parameters; fixed relations exactly; history: all gates built in one process at exact int / negative / float / sympy values with every matrix held until the end. non-trivial = parametric gate with a certificate / a fixed relation between two different gates")
 RULE += ' Held history also at exact symbolic constants (pi, pi/2, 2pi, pi/3 ...: exact zeros of sin/cos) and tiny angles (1.5e-8, -4e-8, 3e-7).'
+RULE += ' Round 5: every returned matrix must have the declared dimension before anything is computed with it; parameters as fractions.Fraction, signed zeros, large values; the same real values reached through compound expressions (theta+2u at u=0, two-step binds).'
 ASSUMPTIONS = ["sympy evaluates its own expressions at numbers correctly (lambdify/evalf)", "cut-off: a trigonometric polynomial of degree <= D vanishing on 2D+1 equispaced points vanishes identically",
                "grid residuals <= 1e-10 imply sup-norm residual <= 1e-10 * prod(2D_i+1)"]
 BOUNDS = {"quick": {"grid": "certificate-sized tensor grid", "U3_numeric_path_points": 27}, "thorough": {"grid": "certificate-sized tensor grid", "U3_numeric_path_points": "all grid points"}}
